@@ -143,8 +143,11 @@ def mutate(env, cat, mod, c):
         if f.label == "repeated":
             lst = getattr(c, f.name)
             if f.kind == "message":
-                if lst:
+                if lst and cat.shapes[f.msg].fields:
                     lst[0].x = 41
+                    return True
+                if not cat.shapes[f.msg].fields:
+                    lst.append(getattr(mod, f.msg)())  # a type without fields: one more element is the visible change
                     return True
                 continue
             lst.append({"string": "zz", "bytes": b"zz", "bool": True, "double": 1.5, "float": 1.5}.get(f.kind, 41) if f.kind != "enum" else getattr(mod, f.enum).try_value(1))
@@ -152,13 +155,16 @@ def mutate(env, cat, mod, c):
         if f.label == "map":
             d = getattr(c, f.name)
             if f.kind == "message":
-                for k in d:
-                    d[k].x = 41
-                    return True
+                if cat.shapes[f.msg].fields:
+                    for k in d:
+                        d[k].x = 41
+                        return True
                 continue
             continue
         if f.kind == "message" and not f.wraps and f.label == "singular":
             sub = getattr(c, f.name)
+            if not cat.shapes[f.msg].fields:
+                continue
             inner = cat.shapes[f.msg].fields[0]
             if inner.kind in ("int32", "sint32", "uint32"):
                 setattr(sub, inner.name, 41)
